@@ -330,7 +330,7 @@ def getName(z: int = None, symbol: str = None) -> str:
     if z:
         element = byZ[z]
     else:
-        element = byName[symbol.upper()]
+        element = bySymbol[symbol.upper()]
     return element.name
 
 
@@ -357,7 +357,7 @@ def getSymbol(z: int = None, name: str = None) -> str:
     if z:
         element = byZ[z]
     else:
-        element = byName[name.lower()]
+        element = byName[name]
     return element.symbol
 
 
@@ -389,7 +389,7 @@ def getElementZ(symbol: str = None, name: str = None) -> int:
     if symbol:
         element = bySymbol[symbol.upper()]
     else:
-        element = byName[name.lower()]
+        element = byName[name]
     return element.z
 
 
